@@ -174,6 +174,8 @@ H("C18", "wdt", _W, "quick", "C18.b WDT chunk records: write(read(b)) == b, read
    "c18b_modf_two_entries_size", "c18b_modf_bad_size_rejected"],
   ["chunks::mphd::MphdChunk::{read,write,size}", "chunks::MverChunk::{read,write,size}", "chunks::ModfChunk::{read,write,size}"],
   "record bytes fully symbolic (32 / 4 / 64 bytes) or fields symbolic", "one record (MODF: 1 and 2 entries)")
+H("C18", "wdt", _W, "thorough", "C18.b MAID: size() == sections * 64 * 64 * 4 for section counts 0, 1, 2, 9", ["c18b_maid_size_formula"],
+  ["chunks::maid::MaidChunk::{with_section_count,section_count,size}"], "section counts {0,1,2,9} concrete", "-", timeout=2400)
 H("C18", "wdt", _W, "thorough", "C18.b MAID: size() == bytes written for 1, 2, 8 sections",
   ["c18b_maid_size_1_section", "c18b_maid_size_2_sections", "c18b_maid_size_8_sections"],
   ["chunks::maid::MaidChunk::{with_section_count,new,set,write,size}"],
@@ -467,12 +469,12 @@ H("C08", "mpq", _P, "thorough", "C08.b the digest checks accept exactly when the
   abstraction_stubs=["md5::compress"], timeout=2400)
 
 # ------------------------------------------------------------------------------- C02.d reference writer -> real reader
-H("C02", "mpq", _BP, "quick", "C02.d files laid out per the published format by a reference writer are read bit-identically: stored file (single-unit or not), compressed one-sector file with a sector offset table",
+H("C02", "mpq", _BP, "thorough", "C02.d files laid out per the published format by a reference writer are read bit-identically: stored file (single-unit or not), compressed one-sector file with a sector offset table",
   ["c02d_reference_one_sector_compressed", "c02d_reference_stored_file"],
   ["archive::Archive::read_file", "archive::Archive::read_sectored_file", "archive::Archive::find_file", "tables::HashTable::find_file"],
   "6 content bytes and the codec payload symbolic; single-unit flag symbolic for the stored file", "6-byte files at archive offset 32",
   stubs=[FMT, MEMFILE, "compression::decompress -> abstract codec (inverts the prepared payload, rejects everything else)"],
-  abstraction_stubs=["decompress"], timeout=1200)
+  abstraction_stubs=["decompress"], timeout=2400)
 
 H("C10", "mpq", _SG, "thorough", "C10.b signature window crossing a 64 KiB digest-unit boundary: exactly the window is zeroed, the bytes behind it stay covered",
   ["c10b_digest_window_straddles_unit_boundary"], ["crypto::signature::calculate_mpq_hash_md5"],
@@ -497,6 +499,12 @@ H("C10", "mpq", _BP, "thorough", "C10.d acceptance implies the checksum matches:
   ["c10d_accept_implies_checksum_matches"], _pathfns + ["adler2::adler32_slice"],
   "2-byte file content, fault offset/mask and 4 replacement checksum bytes symbolic", "2-byte single-unit file; reference Adler-32 in closed form",
   stubs=[FMT, MEMFILE], timeout=2400)
+
+H("C02", "mpq", _BP, "thorough", "C02.d multi-sector compressed file, writer only: the stored size equals the bytes written and the sector offset table (decrypted with the format's key-1) starts behind itself and ends at the stored size",
+  ["c02d_ms_stored_size_codec", "c02d_ms_stored_size_enc_codec", "c02d_ms_stored_size_enc_fix_codec"],
+  ["builder::ArchiveBuilder::write_file", "builder::ArchiveBuilder::calculate_file_key", "builder::ArchiveBuilder::encrypt_data_u32"],
+  "513-byte file (5 symbolic tail bytes), codec payload symbolic", "2 sectors",
+  stubs=[FMT, "compression::compress -> abstract codec"], abstraction_stubs=["compress"], timeout=2400)
 
 
 # =============================================================================== per-property fragments
